@@ -42,6 +42,9 @@ ASSUMPTIONS = [
 ]
 
 REAL_PY = os.path.realpath(_real.__file__)
+# real.py resolves a circular import lazily (module global PlaceHolder): do it now, so that the
+# line events seen by traced runs do not depend on what ran earlier in this process
+_real._TestRecord.create("warm-up", None).to_test_case()
 TS_PY = os.path.realpath(_ts.__file__)
 PH_OUTCOMES = ("addSuccess", "addFailure", "addError", "addSkip", "addExpectedFailure", "addUnexpectedSuccess")
 STATUS_OF = {"addSuccess": "success", "addFailure": "fail", "addError": "fail", "addSkip": "skip",
